@@ -40,17 +40,16 @@ impl TaskData {
         }
     }
 //@end
-//@extract src/task/data.rs :: impl TaskData :: fn get | R22 R28=&String->&str
-    pub fn get(&self, property: &str) -> (r: Option<&str>)
+//@extract src/task/data.rs :: impl TaskData :: fn get | R15 R29map
+    pub fn get<P1: AsRef<str>>(&self, property: P1) -> (r: Option<&str>)
         ensures
             //@ob C18 C20 TaskData::get.reads-the-stored-value-if-any
-            match r { Some(v) => self.taskmap@.dom().contains(property@) && v@ == self.taskmap@[property@], None => !self.taskmap@.dom().contains(property@) },
+            match r { Some(v) => self.taskmap@.dom().contains(as_ref_chars(&property)) && v@ == self.taskmap@[as_ref_chars(&property)], None => !self.taskmap@.dom().contains(as_ref_chars(&property)) },
 {
-        self.taskmap.get(property).map(|v: &String| -> (c1_r: &str)
-            ensures c1_r@ == v@
-        {
-            v.as_str()
-        })
+        match self.taskmap.get(property.as_ref()) {
+            Some(v) => Some(v.as_str()),
+            None => None,
+        }
     }
 //@end
 //@extract src/task/data.rs :: impl TaskData :: fn get_uuid
